@@ -45,6 +45,7 @@ def build(tier, rnd):
     for k, s in (d1 if tier == "thorough" else d1[::3]):
         out.append((k, s, ["ansi"]))
     out += same_alias_cases(45 if tier == "quick" else 600, common.env.seed() * 31 + 7)
+    out += capture_cases(24 if tier == "quick" else 300, common.env.seed() * 53 + 3)
     # CTEs that reference themselves, with and without the RECURSIVE keyword
     for key, st, ds in c01.recursive_cte_cases(10 if tier == "quick" else 80, common.env.seed() * 41 + 9):
         if key[1] % 2 and st.kind in KINDS:
@@ -52,6 +53,34 @@ def build(tier, rnd):
             ds = ["ansi", "postgres", "mysql", "sqlite"][: 2 + key[1] % 3]
         if st.kind in KINDS:
             out.append((key, st, ds))
+    return out
+
+
+def capture_cases(n, seed):
+    """a select-item scalar sub-query reads a table whose bare name is, in the enclosing query, the alias of ANOTHER relation (names must not be
+    captured across scopes); in half of the cases the sub-query is also correlated through a second outer alias"""
+    from vlib.sqlgen import Base, Derived, E, Group, Item, Select, Stmt, col
+    rnd = random.Random(seed)
+    out = []
+    for i in range(n):
+        inner, outer, other, T = f"tb_ci{i}", f"tb_co{i}", f"tb_cx{i}", Base(f"tb_ct{i}", rnd.choice([None, "sa"]))
+        c1, c2, c3 = f"c_{rnd.randint(1, 3)}", f"c_{rnd.randint(4, 6)}", f"c_{rnd.randint(7, 9)}"
+        sch = rnd.choice([None, "sb"])
+        ie = E("func", col(c1, inner), fname="max")
+        k = i % 4
+        if k in (1, 3):
+            oc = col(c3, "oq")
+            oc.outer = True
+            ie = E("arith", ie, oc, fname="-")
+        isel = Select([Item(ie, "o_i")], [Group(Base(inner, sch))])
+        sc = E("scalar", query=isel)
+        if k >= 2:
+            sc = E(rnd.choice(["coalesce", "func"]), sc, col(c2, inner), fname="concat")  # operand of a call, beside a column of the outer relation that carries the name
+        # the outer relation carrying the inner table's bare name as its alias: a table or a derived table
+        orel = Base(outer, None, alias=inner, use_as=bool(i % 2)) if i % 3 else Derived(Select([Item(col(c2)), Item(col(c3))], [Group(Base(outer))]), inner)
+        rels = [orel, ("inner", Base(other, None, alias="oq"), "on")] if k in (1, 3) else [orel]
+        q = Select([Item(sc, "m"), Item(col(c2, inner), "n")], [Group(rels[0], rels[1:])])
+        out.append((("capture", i), Stmt("insert", T, q), ["ansi", rnd.choice(["postgres", "sparksql", "mysql", "snowflake", "non-validating"])]))
     return out
 
 
